@@ -320,6 +320,11 @@ func init() {
 		k(st, scalar(e.tb.App("lib_math_Ceil", SInt, a)))
 	}
 	libSpecs["math.Log10"] = pureUF("math_Log10")
+	libSpecs["math.Log2"] = pureUF("math_Log2")
+	libSpecs["math.Floor"] = pureUF("math_Floor")
+	libSpecs["strconv.Itoa"] = pureUF("strconv_Itoa")
+	libSpecs["strconv.FormatInt"] = pureUF("strconv_FormatInt")
+	libSpecs["strconv.FormatUint"] = pureUF("strconv_FormatUint")
 	// ---- sync: no concurrency semantics; lock state tracked in ghost "held" ----
 	lockOp := func(acquire bool, try bool) LibFn {
 		return func(e *Engine, st *State, fn *ssa.Function, args []Val, pos token.Pos, k Kont) {
